@@ -30,7 +30,7 @@ def determinism(runs):
             rc2, b = run(prop, runs, ['--workers', '5', '--reverse'], os.path.join(tmp, 'b.json'))
             rc3, c = run(prop, runs, ['--workers', '16', '--hashseed-offset', '12345'],
                          os.path.join(tmp, 'c.json'))
-            same = a == b and len(a) == runs
+            same = a == b and len(a) >= runs      # (sweep cases come on top)
             moved = sum(1 for k in a if a[k] != c.get(k))
             report[prop] = {'runs': len(a), 'identical_across_processes_order_workers': same,
                             'differing': sum(1 for k in a if a[k] != b.get(k)),
